@@ -5,6 +5,7 @@ package main
 import (
 	"fmt"
 	"go/ast"
+	"go/constant"
 	"go/token"
 	"go/types"
 	"sort"
@@ -66,6 +67,10 @@ func diagnosingCallees(c *Ctx, d *diagInfo) map[*ssa.Function]bool {
 		if res.Len() > 0 && types.Identical(res.At(res.Len()-1).Type(), errT) {
 			cands = append(cands, f)
 		}
+		// (value, ok bool) helpers of this repository: a return with ok == false is the failure
+		if res.Len() >= 2 && isBoolType(res.At(res.Len()-1).Type()) && strings.HasPrefix(funcName(f), modPath) {
+			cands = append(cands, f)
+		}
 	}
 	for changed := true; changed; {
 		changed = false
@@ -83,6 +88,15 @@ func diagnosingCallees(c *Ctx, d *diagInfo) map[*ssa.Function]bool {
 				}
 				ev := ret.Results[res.Len()-1]
 				if k, isK := ev.(*ssa.Const); isK && k.IsNil() {
+					continue
+				}
+				if k, isK := ev.(*ssa.Const); isK && k.Value != nil && k.Value.Kind() == constant.Bool {
+					if constant.BoolVal(k.Value) {
+						continue // ok == true: success
+					}
+				} else if isBoolType(ev.Type()) {
+					// a computed ok value: not a function whose failures are all diagnosed here
+					ok = false
 					continue
 				}
 				if !dominatedByAny(b, diag) {
